@@ -944,6 +944,7 @@ impl Monitors {
         }
 
         self.check_c13(step, &views, &views_before, &delta, obs);
+        self.check_running_agreement(world, step, &snap, obs);
         self.check_c02_bijection(step, &views, &snap, obs);
         self.check_c05(world, step, &snap, obs);
         self.check_c06_live(world, step, obs);
@@ -1168,6 +1169,62 @@ impl Monitors {
             }
             if old.len() > 0 {
                 obs.class("submit-into-open-job");
+            }
+        }
+    }
+
+    /// "Running" means the same in the job layer and in the scheduler: a task that the job layer
+    /// shows as running on a worker is run there by the scheduler, with the same instance and
+    /// variant, and vice versa (single-node tasks; a multi-node task is held by the scheduler
+    /// from its placement on, before its start is announced).
+    fn check_running_agreement(&mut self, world: &World, step: u32, snap: &CoreSnapshot, obs: &mut Obs) {
+        use hyperqueue::server::job::JobTaskState;
+        let st = world.state_ref.get();
+        for job in st.jobs() {
+            for (tid, info) in job.tasks.iter() {
+                let id = TaskId::new(job.job_id, *tid);
+                let core = snap.tasks.iter().find(|t| t.id == id);
+                match &info.state {
+                    JobTaskState::Running { started_data } => {
+                        let ok = match core.map(|t| &t.state) {
+                            Some(TaskStateSnap::Running { worker_id, rv_id }) => {
+                                started_data.worker_ids.len() == 1
+                                    && started_data.worker_ids[0] == *worker_id
+                                    && started_data.rv_id.as_num() == *rv_id
+                            }
+                            // (the scheduler releases the other nodes of a multi-node task
+                            //  when one of them is lost; only the root is compared)
+                            Some(TaskStateSnap::RunningMultiNode(ws)) => {
+                                started_data.worker_ids.first() == ws.first()
+                            }
+                            _ => false,
+                        };
+                        if !ok {
+                            obs.alarm(
+                                "C13",
+                                step,
+                                "task is shown as running although the scheduler does not run it there",
+                                format!(
+                                    "{id}: job layer says running on {:?} variant {}, scheduler state {:?}",
+                                    started_data.worker_ids,
+                                    started_data.rv_id.as_num(),
+                                    core.map(|t| &t.state)
+                                ),
+                            );
+                        }
+                    }
+                    JobTaskState::Waiting => {
+                        if let Some(TaskStateSnap::Running { worker_id, .. }) = core.map(|t| &t.state) {
+                            obs.alarm(
+                                "C13",
+                                step,
+                                "scheduler runs a task that the job layer shows as waiting",
+                                format!("{id} on w{worker_id}"),
+                            );
+                        }
+                    }
+                    _ => {}
+                }
             }
         }
     }
